@@ -124,7 +124,8 @@ class Run:
                     self.violations.append((path, "no-failing-input-found"))
                     return None
                 impl_exes[eng.exe] = exe
-                models[eng.exe] = C.build_model(eng.exe)
+                if not getattr(eng, "model_free", False):
+                    models[eng.exe] = C.build_model(eng.exe)
         for eng in engines:
             corpus = eng.corpus()
             n = eng.n_cases(self.tier)
@@ -132,9 +133,9 @@ class Run:
             for i in range(n):
                 cases.append(eng.gen(C.Rng(self.seed, eng.name, i), self.tier))
             t1 = time.time()
-            impl = C.run_lines(impl_exes[eng.exe], cases, shards=16)
+            impl = C.run_lines(impl_exes[eng.exe], cases, shards=16, per_shard=getattr(eng, 'per_shard', 50))
             t2 = time.time()
-            mod = C.run_lines(models[eng.exe], cases, shards=16)
+            mod = impl if getattr(eng, "model_free", False) else C.run_lines(models[eng.exe], cases, shards=16)
             t3 = time.time()
             shapes = set()
             hist = {}
@@ -168,6 +169,8 @@ class Run:
 
     def run_one(self, eng, line):
         a = C.run_lines(self._impl_exes[eng.exe], [line], shards=1)[0]
+        if getattr(eng, "model_free", False):
+            return eng.canon(a), eng.canon(a)
         b = C.run_lines(self._models[eng.exe], [line], shards=1)[0]
         return eng.canon(a), eng.canon(b)
 
